@@ -5,9 +5,14 @@ import (
 	"fmt"
 	"math/rand/v2"
 	"os"
+	"path/filepath"
 	"sort"
 	"strings"
 	"testing"
+	"time"
+
+	"github.com/pojntfx/stfs/pkg/cache"
+	"github.com/spf13/afero"
 )
 
 type openCombo struct {
@@ -18,13 +23,16 @@ type openCombo struct {
 func init() {
 	Register(&Check{
 		ID: "C16", Level: "fault_enumeration", Tech: "deterministic simulation: restart enumeration over (crash point of the tape) x (index absent / current / stale snapshot), then Initialize, further calls and a rebuild",
-		Rule:      "per generated history: tape = intact or cut at enumerated crash points (call boundaries, record boundaries, inside headers, inside content); index = absent, current, or the snapshot taken at any earlier call boundary; a fresh instance is constructed and initialised over copies; oracle: the old tape is a prefix of the tape afterwards, nothing is appended when the tape holds a complete root record, on success the observed tree+contents equal a from-scratch rebuild of that tape, and entries written afterwards read back and survive a rebuild; an evaluation = one (history, cut, index) combination; non-trivial = cut inside the tape or stale index; distinct by (history, cut class, index class)",
+		Rule:      "per generated history: tape = intact or cut at enumerated crash points (call boundaries, record boundaries, inside headers, inside content); index = absent, current, or the snapshot taken at any earlier call boundary; a fresh instance is constructed and initialised over copies; oracle: the old tape is a prefix of the tape afterwards, nothing is appended when the tape holds a complete root record, on success the observed tree+contents equal a from-scratch rebuild of that tape, and entries written afterwards read back and survive a rebuild; in a quarter of the histories the documented cache composition (memory / dir with a cache directory that outlives the instance) is opened, the tape is changed by an uncached instance, and a new cached instance must show the rebuilt state; an evaluation = one (history, cut, index) combination; non-trivial = cut inside the tape or stale index; distinct by (history, cut class, index class)",
 		QuickRuns: 500, QuickSecs: 70, ThoroughRuns: 1500, ThoroughSecs: 1500,
-		Assumptions: []string{"index snapshots are file copies taken at call boundaries (SQLite's own crash recovery is not modelled)", "an index that is ahead of the tape is not modelled", "open known findings KF2-KF4 restrict what is judged for torn tapes and stale indexes (see DESIGN.md)"},
+		Assumptions: []string{"index snapshots are file copies taken at call boundaries (SQLite's own crash recovery is not modelled)", "an index that is ahead of the tape is not modelled", "open known findings KF3-KF4 restrict what is judged for torn tails and stale indexes (see DESIGN.md)"},
 		Gen: func(r *rand.Rand, tier string, relax Relax) *Case {
 			c := &Case{Cfg: GenConfig(r, 0.6), P: map[string]int64{"enumerate": 1}, S: map[string]string{}}
 			ops, u := GenHistory(r, GenOpts{MaxOps: 7, Handles: r.Float64() < 0.3, RS: c.Cfg.RecordSize, ValidBias: 0.85})
 			c.Ops, c.S["style"] = ops, u.Style
+			if r.IntN(4) == 0 {
+				c.S["fscache"] = []string{"dir", "memory"}[r.IntN(2)]
+			}
 			return c
 		},
 		Eval: evalC16,
@@ -122,10 +130,113 @@ func evalC16(t *testing.T, c *Case, st *Stats, relax Relax) *Violation {
 			}
 			st.Evals++
 		}
+		if ct := c.S["fscache"]; ct != "" && c.Param("enumerate", 1) != 0 {
+			if v := c16FsCache(x, ct, tape, snaps[len(snaps)-1], names); v != nil {
+				return v
+			}
+		}
 		st.Evals--
 		st.Sample(fmt.Sprintf("cfg=%s tape=%dB combos=%d ops:\n%s", c.Cfg, len(tape), len(combos), opsString(c.Ops)))
 		return nil
 	})
+}
+
+// c16FsCache: the documented composition with a filesystem cache ("memory" or "dir" with a cache
+// directory that outlives the instance). Session 1 reads everything through the cache, session 2
+// (no cache, e.g. the CLI) changes the tape, session 3 is constructed with the same cache type and
+// directory: it must show what a from-scratch rebuild of the tape shows (kinds, sizes, contents).
+func c16FsCache(x *SeqCtx, ctype string, tape []byte, index string, names []string) *Violation {
+	c := x.Case
+	mk := func(oracle, detail string) *Violation {
+		return &Violation{Prop: c.Prop, Oracle: oracle, Detail: fmt.Sprintf("filesystem cache %q over the intact tape with its current index: %s", ctype, detail)}
+	}
+	drive, err := x.W.PrefixDrive(tape, len(tape))
+	if err != nil {
+		return &Violation{Prop: c.Prop, Oracle: "harness", Detail: err.Error()}
+	}
+	defer os.Remove(drive)
+	idx := x.W.NewIndexPath()
+	copyFile(index, idx)
+	cacheDir := filepath.Join(x.W.Dir, "fscache")
+	session := func(cached bool, body func(fsys afero.Fs, st *Stack) *Violation) *Violation {
+		st, err := x.W.Open(OpenOpts{Drive: drive, Index: idx})
+		if st != nil {
+			defer st.Close()
+		}
+		if err != nil {
+			return mk("open-fails", err.Error())
+		}
+		var fsys afero.Fs = st.FS
+		if cached {
+			fsys, err = cache.NewCacheFilesystem(st.FS, st.Root, ctype, time.Hour, cacheDir)
+			if err != nil {
+				return mk("composition-fails", err.Error())
+			}
+		}
+		return body(fsys, st)
+	}
+	var first Tree
+	if v := session(true, func(fsys afero.Fs, st *Stack) *Violation {
+		first, _ = Observe(fsys, "/", ObsOpts{Extra: names})
+		return nil
+	}); v != nil {
+		return v
+	}
+	// another instance without the cache rewrites one file, removes one entry and adds one
+	if v := session(false, func(fsys afero.Fs, st *Stack) *Violation {
+		ex := NewExec(fsys, x.S)
+		var files []string
+		for p, n := range first {
+			if n.Kind == "file" {
+				files = append(files, p)
+			}
+		}
+		sort.Strings(files)
+		if len(files) > 0 {
+			ex.Do(Op{K: "writefile", P: files[0], D: &Data{Len: int(first[files[0]].Size) + 37, Kind: "text", Tag: 0xCAC4E}})
+		}
+		if len(files) > 1 {
+			ex.Do(Op{K: "remove", P: files[1]})
+		}
+		ex.Do(Op{K: "writefile", P: "/c16-other-session", D: &Data{Len: 99, Kind: "text", Tag: 0xCAC4F}})
+		return nil
+	}); v != nil {
+		return v
+	}
+	var third Tree
+	if v := session(true, func(fsys afero.Fs, st *Stack) *Violation {
+		third, _ = Observe(fsys, "/", ObsOpts{Extra: names})
+		return nil
+	}); v != nil {
+		return v
+	}
+	scratch, _, ierr, err := RebuildObserve(x.W, drive, names)
+	if err != nil {
+		return &Violation{Prop: c.Prop, Oracle: "harness", Detail: err.Error()}
+	}
+	if ierr != nil {
+		return mk("rebuild-fails", ierr.Error())
+	}
+	x.Stats.Add("fscache_sessions", 3)
+	var diffs []string
+	for p, n := range scratch {
+		g, ok := third[p]
+		if !ok {
+			diffs = append(diffs, fmt.Sprintf("%s: on the tape (%s %d bytes), not shown", p, n.Kind, n.Size))
+		} else if g.Kind != n.Kind || (n.Kind == "file" && (g.Size != n.Size || g.Sum != n.Sum)) {
+			diffs = append(diffs, fmt.Sprintf("%s: tape has %s %d bytes %s, shown is %s %d bytes %s %s", p, n.Kind, n.Size, n.Sum, g.Kind, g.Size, g.Sum, g.Err))
+		}
+	}
+	for p, g := range third {
+		if _, ok := scratch[p]; !ok {
+			diffs = append(diffs, fmt.Sprintf("%s: shown (%s %d bytes) but not on the tape any more", p, g.Kind, g.Size))
+		}
+	}
+	sort.Strings(diffs)
+	if len(diffs) > 0 {
+		return mk("opened-with-cache-differs-from-scratch-rebuild", strings.Join(diffs, "; "))
+	}
+	return nil
 }
 
 func c16One(x *SeqCtx, cb openCombo, tape []byte, recs []TapeRec, ends []int, snaps []string, names []string) *Violation {
